@@ -18,7 +18,8 @@ CLAIMS = {
             'declarative reading of where x is mentioned: Option / Vec / tuple), C16_getter_exists_iff, C16_value_typed (no Option<Option>, '
             'value has exactly the emitted type), C16_tparse_has_shape, C16_flattenable, C16_one_getter_per_name, C16_example_types. Ties: V1g '
             '(type and path of every accessor the REAL generator emits, extracted with syn from its token stream == Model/Getter.v, seeded '
-            'getter-biased grammars); corpus compiled with #[emit_rule_reference]: every accessor called on every parsed input, flattened by a '
+            'getter-biased grammars, both option sets, plus tagged grammars through the grammar-extras build with tag references off; the two accessor '
+            'builders compared code against code on rules whose optimized and un-optimized AST coincide); corpus compiled with #[emit_rule_reference]: every accessor called on every parsed input, flattened by a '
             'type-directed trait, compared with the model accessor (T2) and the specification direct_refs / mention_refs on the model tree '
             '(T3).',
             'DESIGN.md §4 C16, §10'),
@@ -47,7 +48,8 @@ CLAIMS = {
             'failure (neither out-of-fuel nor panic) within the explicit bound fuel_bound; C11_example / C11_rejects_left_recursion. Tie: the '
             'certificate is inferred and checked by the extracted model for every corpus grammar, the model is re-run at exactly fuel_bound, '
             'the real parsers run under a watchdog. Verdict parity (real generator under catch_unwind vs pest_meta parse/validate/consume_rules '
-            'on deliberately ill-formed grammars, seeded mutations and random grammars, single and multiple grammar sources), the structural '
+            'on deliberately ill-formed grammars, seeded mutations and random grammars, single and multiple grammar sources, inline and as files '
+            'relative to CARGO_MANIFEST_DIR and to its src/), the corpus compiled with pest_optimizer = false under the same watchdog, the structural '
             "pipeline-order check of typed.rs and 'compiles' (derive corpus) compare real programs and are decided by validation runs.",
             'DESIGN.md §4 C11, §10'),
     "C18": ("Theorems C18_eq_debug / C18_ne_debug / C18_eq_hash / C18_refl / C18_sym / C18_trans for all tnode pairs (field-by-field models "
@@ -101,7 +103,7 @@ CLAIMS = {
             "Theorems C14_total_repaired / C14_total_position (no panic for any input), C14_rows_of_the_code (exact characterisation), "
             "C14_rows_partial under the decidable exclusion of the known class, witnesses C14_refuted_*; tie: exhaustive small strings x "
             "all spans/positions incl. recording FormatOption against the model and an independent oracle, display-width classes and a sequence "
-            "corpus measured with the real string widths of unicode-width; known finding F4b "
+            "corpus measured with the real string widths of unicode-width, placeholders with width / precision / alignment print what {} prints; known finding F4b "
             "(span starting at a line start is rendered from the previous line; pinned by an existing test).", "DESIGN.md §4 C14"),
     "C04": ("Theorems C04_full_iff / C04_check_iff / C04_eoi_attempt (try_parse = Ok iff prefix parse + trailing skip (none for atomic "
             "kinds) + at end; tree of the prefix parse), C04_no_success_with_unread, C04_no_reject_at_end; against pest's own semantics "
